@@ -140,7 +140,7 @@ def rule_r1(ctx: Ctx) -> None:
                     while isinstance(base, ast.Subscript):
                         base = base.value
                     d = dotted(base) or ""
-                    if d.startswith("self.") and not (c.name == "MemoizationOperator" and d.split(".")[1] in MEMO_SLOTS):
+                    if d.startswith("self.") and not c.name == "MemoizationOperator":  # (the memo's own slots, whatever they are called: R3 decides its transparency)
                         offenders.append("%s: %s" % (name, norm(n)[:60]))
         init = c.methods.get("__init__")
         shared = []
@@ -199,7 +199,7 @@ def rule_r2(ctx: Ctx, rid: str = "C01.R2") -> None:
                         recv, what = t.value, "[...] store"
             if recv is None:
                 continue
-            is_memo_slot = fn.cls.name == "MemoizationOperator" and (dotted(recv) or "").split(".")[-1] in MEMO_SLOTS
+            is_memo_slot = fn.cls.name == "MemoizationOperator" and (dotted(recv) or "").startswith("self.")
             if is_memo_slot and what == "[...] store":
                 continue  # filling the cache itself
             if isinstance(recv, ast.Name) and recv.id in aliases:
@@ -264,37 +264,44 @@ def rule_r4(ctx: Ctx) -> None:
                     used.add("expand")
             extra = sorted(used - allowed[q])
             ctx.check(not extra, fn.short, "reads %s" % sorted(used), "%s must be derived from the children's %s only" % (q, "/".join(sorted(allowed[q]))), fn.where(), extra)
+    # the public queries of BitLengthSet, asked of sets built over logging operands that stand for known sets: each answer is the
+    # definition's, and the analytic ones are answered without expanding the operand
     b = ctx.cls(BLS)
-    # public queries: which operator query answers them (decided on the returned expression, helpers expanded, temporaries
-    # substituted): the query name and, for modulo, that the divisor is handed over
-    plumbing = {"min": ("min", None), "max": ("max", None), "__mod__": ("modulo", 1), "__iter__": ("expand", None), "__len__": ("expand", None)}
-    for name, (q, argpos) in plumbing.items():
+    bad: Dict[str, List[Any]] = {}
+    for vals in ({8, 16}, {3}, {0, 4, 12}, {5, 6, 7, 40}):
+        log: List[Any] = []
+        opnd = _residue_operand(ctx, vals, log)
+        try:
+            bs = construct(ctx, b, opnd, hook=_quiet_hook)
+        except (Unfoldable, Raised) as ex:
+            raise AnalysisError("BitLengthSet cannot be constructed over a stand-in operator: %s" % ex)
+        env = {"s": bs}
+        expanded = opnd.__dict__["expand"].log
+        want: Dict[str, Any] = {"min": ("s.min", min(vals)), "max": ("s.max", max(vals)), "fixed_length": ("s.fixed_length", len(vals) == 1)}
+        for d in (1, 2, 4, 8, 3):
+            want["__mod__ %d" % d] = ("set(s %% %d)" % d, {x % d for x in vals})
+            want["is_aligned_at %d" % d] = ("s.is_aligned_at(%d)" % d, all(x % d == 0 for x in vals))
+        want["is_aligned_at_byte"] = ("s.is_aligned_at_byte()", all(x % 8 == 0 for x in vals))
+        for name, (src, expect) in want.items():
+            del expanded[:]
+            got = _eval_bls(ctx, src, env)
+            got = set(got) if isinstance(got, (set, frozenset, list)) else got
+            ctx.count()
+            key = name.split(" ")[0]
+            if got != expect or type(got) is not type(expect):
+                bad.setdefault(key, []).append({"set": sorted(vals), "query": src, "found": repr(got)[:60], "expected": repr(expect)})
+            elif expanded:
+                bad.setdefault(key, []).append({"set": sorted(vals), "query": src, "note": "answered by expanding the operand"})
+        for name, src, expect in (("__iter__", "sorted(s)", sorted(vals)), ("__len__", "len(s)", len(vals))):
+            got = _eval_bls(ctx, src, env)
+            ctx.count()
+            if got != expect:
+                bad.setdefault(name, []).append({"set": sorted(vals), "query": src, "found": repr(got)[:60], "expected": repr(expect)})
+    for name in ("min", "max", "fixed_length", "__mod__", "is_aligned_at", "is_aligned_at_byte", "__iter__", "__len__"):
         fn = b.methods.get(name)
         if fn is None:
             raise AnalysisError("anchor BitLengthSet.%s missing" % name)
-        v = single_return(ctx, fn)
-        if v is None:
-            raise AnalysisError("BitLengthSet.%s: not a single returned expression" % name)
-        used = {n.attr for n in ast.walk(v) if isinstance(n, ast.Attribute) and n.attr in QUERIES and norm(n.value) == "self._op"}
-        good = used == {q}
-        if good and argpos is not None:
-            calls = [c for c in ast.walk(v) if isinstance(c, ast.Call) and isinstance(c.func, ast.Attribute) and c.func.attr == q]
-            good = len(calls) == 1 and len(calls[0].args) == 1 and any(isinstance(n, ast.Name) and n.id == fn.params[argpos] for n in ast.walk(calls[0].args[0]))
-        ctx.check(good, b.short + "." + name, norm(v)[:80], "public query %s must be answered by the operator query `%s`" % (name, q), fn.where())
-    for name, needs in (("fixed_length", {"min", "max"}), ("is_aligned_at", {"__mod__"})):
-        fn = b.methods.get(name)
-        if fn is None:
-            raise AnalysisError("anchor BitLengthSet.%s missing" % name)
-        v = single_return(ctx, fn)
-        if v is None:
-            raise AnalysisError("BitLengthSet.%s: not a single returned expression" % name)
-        txt = norm(v)
-        if name == "fixed_length":
-            good = isinstance(v, ast.Compare) and len(v.ops) == 1 and isinstance(v.ops[0], ast.Eq) and {norm(v.left), norm(v.comparators[0])} == {"self.min", "self.max"}
-        else:
-            # the residues of self modulo the argument are exactly {0}
-            good = isinstance(v, ast.Compare) and len(v.ops) == 1 and isinstance(v.ops[0], ast.Eq) and any(norm(x) in ("{0}", "set([0])", "set((0,))", "frozenset({0})") for x in (v.left, v.comparators[0])) and ("self %% %s" % fn.params[1]) in txt
-        ctx.check(good, b.short + "." + name, txt[:80], "public query %s must be derived from %s" % (name, sorted(needs)), fn.where())
+        ctx.check(not bad.get(name), b.short + "." + name, "answers for 4 operand sets x divisors", "public query %s must give the definition's answer, the analytic ones without expansion" % name, fn.where(), (bad.get(name) or [])[:3])
 
 
 def _residue_operand(ctx: Ctx, values: Any, log: List[Any]) -> AObj:
